@@ -24,6 +24,9 @@ func float64bits(f float64) uint64     { return math.Float64bits(f) }
 // uptr is an unsafe.Pointer holding an engine pointer.
 type uptr struct{ p value }
 
+// dataPtr is the result of unsafe.StringData / unsafe.SliceData.
+type dataPtr struct{ b []value }
+
 // poisonVal is the result of an unsupported call during package initialisation.
 type poisonVal struct{}
 
@@ -321,6 +324,9 @@ func (r *Run) eqValue(t types.Type, x, y value) *Term {
 			return ts.Bool(x == yp)
 		}
 		return ts.Bool(false)
+	case dataPtr:
+		yp, ok := y.(dataPtr)
+		return ts.Bool(ok && unsafe.SliceData(x.b) == unsafe.SliceData(yp.b))
 	case uptr:
 		if yp, ok := y.(uptr); ok {
 			return r.eqValue(nil, x.p, yp.p)
@@ -849,6 +855,32 @@ func (r *Run) callBuiltin(caller *frame, fn *ssa.Builtin, args []value) value {
 
 	case "ssa:deferstack":
 		return &caller.defers
+
+	// unsafe.{StringData,SliceData,String,Slice}: the "pointer" keeps the
+	// whole backing sequence so that String/Slice can rebuild a view.
+	case "StringData":
+		return dataPtr{strBytes(args[0])}
+	case "SliceData":
+		return dataPtr{args[0].([]value)}
+	case "String":
+		p, ok := args[0].(dataPtr)
+		if !ok {
+			r.inconclusive("unsafe.String on %T", args[0])
+		}
+		n := int(asInt64(r.concValue(args[1], "unsafe.String len")))
+		return mkStr(p.b[:n])
+	case "Slice":
+		p, ok := args[0].(dataPtr)
+		if !ok {
+			r.inconclusive("unsafe.Slice on %T", args[0])
+		}
+		n := int(asInt64(r.concValue(args[1], "unsafe.Slice len")))
+		if n == 0 {
+			return []value{}
+		}
+		out := make([]value, n)
+		copy(out, p.b[:n])
+		return out
 	}
 
 	panic("unknown built-in: " + fn.Name())
